@@ -333,6 +333,9 @@ func (fr *frame) visit(instr ssa.Instruction) int {
 	switch instr := instr.(type) {
 	case *ssa.DebugRef:
 	case *ssa.UnOp:
+		if instr.Op == token.MUL {
+			m.raceAccess(fr.get(instr.X), false, instr.Pos())
+		}
 		fr.setReg(instr, m.unop(instr, fr.get(instr.X)))
 	case *ssa.BinOp:
 		fr.setReg(instr, m.binop(instr.Op, instr.X.Type(), instr.Y.Type(), fr.get(instr.X), fr.get(instr.Y)))
@@ -393,6 +396,7 @@ func (fr *frame) visit(instr ssa.Instruction) int {
 		ch, _ := fr.get(instr.Chan).(*Chan)
 		m.chanSend(ch, fr.get(instr.X))
 	case *ssa.Store:
+		m.raceAccess(fr.get(instr.Addr), true, instr.Pos())
 		m.store(fr.get(instr.Addr), fr.get(instr.Val))
 	case *ssa.If:
 		c := m.asTerm(fr.get(instr.Cond))
@@ -561,6 +565,9 @@ func (fr *frame) visit(instr ssa.Instruction) int {
 				fr.setReg(instr, m.selectTerm(idx, m.strBytes(x)))
 			}
 		case *Map:
+			if x != nil && m.raceOn() {
+				m.raceKey(x, false, instr.Pos())
+			}
 			v, ok := m.mapGet(x, fr.get(instr.Index))
 			if !ok {
 				v = m.zero(instr.X.Type().Underlying().(*types.Map).Elem())
@@ -577,6 +584,9 @@ func (fr *frame) visit(instr ssa.Instruction) int {
 		}
 	case *ssa.MapUpdate:
 		mp, _ := fr.get(instr.Map).(*Map)
+		if mp != nil && m.raceOn() {
+			m.raceKey(mp, true, instr.Pos())
+		}
 		m.mapSet(mp, fr.get(instr.Key), fr.get(instr.Value))
 	case *ssa.TypeAssert:
 		x, ok := fr.get(instr.X).(Iface)
@@ -767,6 +777,7 @@ func (m *Machine) selectOp(fr *frame, instr *ssa.Select) Value {
 		st := instr.States[chosen]
 		ch := fr.get(st.Chan).(*Chan)
 		if st.Dir == types.RecvOnly {
+			m.hbAcquire(ch)
 			if len(ch.Buf) > 0 {
 				recvd, recvOk = ch.Buf[0], true
 				ch.Buf = ch.Buf[1:]
@@ -776,6 +787,7 @@ func (m *Machine) selectOp(fr *frame, instr *ssa.Select) Value {
 			if ch.Closed {
 				panic(targetPanic{msg: "send on closed channel", stack: m.stackString()})
 			}
+			m.hbRelease(ch)
 			ch.Buf = append(ch.Buf, fr.get(st.Send))
 			ch.Sent++
 		}
